@@ -16,6 +16,32 @@ from .core import viol, h64, canon
 
 NAME = "W-FSA"
 
+RULE = ("One evaluation = one simulated run: a seeded history of 6-60 operations issued by 2-4 logical "
+        "callers on up to 6 automata: construction by six routes (label->target dict, target->labels dict, "
+        "kbmag record written to and read from the simulated disk, built-in file, free-group constructor, "
+        "deepcopy), the caller editing its own dicts afterwards, all mutators incl. in-place start-list edits, "
+        "non-in-place derivations, queries, rejected operations, and disk faults inside loads (short reads, "
+        "open/read errors, truncation, bit flips, files overwritten and re-loaded, fault-position sweeps); every "
+        "invariant is checked on every live handle after every step.  A run is non-trivial if at least one "
+        "mutating operation (or a caller's edit of a dict) happened while a related handle (parent, child, same "
+        "source dict, same file, sibling) was alive and was then re-checked.  Distinct = distinct hash of the "
+        "sequence of (operation kind, relation of the touched handle to the previously touched one).")
+
+COMPONENTS = {"real": ["geometry_tools.automata.fsa (FSA, load_builtin, load_kbmag_file, free_automaton, list_builtins)",
+                       "geometry_tools.automata.gap_parse", "geometry_tools.automata.kbmag_utils.build_dict",
+                       "CPython io stack (TextIOWrapper over BufferedReader)", "copy.deepcopy"],
+              "stub": ["raw file layer under builtins.open for paths under the virtual root and under "
+                       "automata/builtin/ (SimRaw: scheduled short reads and faults); every virtual file also "
+                       "exists on a real scratch directory"]}
+ASSUMPTIONS = ["only deterministic automata, label lists without internal repeats, total injective rename maps and "
+               "roots/starts inside the vertex set are generated (what the class documents)",
+               "label alphabets are uniquely decodable (single characters or uniform 2-character labels)",
+               "a faulted load may raise anything or return None; it must not return a different automaton "
+               "(open/read errors) or an incoherent one (torn/corrupted bytes); a clean reload afterwards must be exact",
+               "the public start_vertices list is edited in place only on handles that own their list object on "
+               "the current tree (constructed, loaded, deep-copied)",
+               "rejected operations have no oracle; the handle they were applied to is retired"]
+
 MUTATE = ("add_vertices", "add_edge", "add_edges_list", "delete_vertex", "delete_vertices",
           "recurrent_in", "rename_in", "set_starts", "starts_inplace")
 # handles whose start_vertices list is their own object on the current tree (constructed with a list the
